@@ -78,7 +78,10 @@ impl DumpXml for Value {
     ) -> Result<(), xml::writer::Error> {
         match self {
             Value::Bytes(b) => {
-                SimpleTag("Value", std::str::from_utf8(b).expect("utf-8")).dump_xml(writer, inner_cipher)
+                let text = std::str::from_utf8(b).map_err(|e| {
+                    xml::writer::Error::Io(std::io::Error::new(std::io::ErrorKind::InvalidData, e))
+                })?;
+                SimpleTag("Value", text).dump_xml(writer, inner_cipher)
             }
             Value::Unprotected(s) => SimpleTag("Value", s).dump_xml(writer, inner_cipher),
             Value::Protected(p) => {
